@@ -19,8 +19,8 @@ Definition effective_cfg (defaults cfg : list (pstr * jv)) (key : option pstr) :
   match key with
   | None => JNull
   | Some k => match assoc k cfg with
-              | Some v => v
-              | None => match assoc k defaults with Some v => v | None => JNull end
+              | Some JNull | None => match assoc k defaults with Some v => v | None => JNull end
+              | Some v => v       (* "if cfg is None": only a null option falls back to gen_config *)
               end
   end.
 
